@@ -336,7 +336,11 @@ func executeOnce(tr *Trace) (res *core.Result, err error) {
 	for i, rc := range tr.Config.Replicas {
 		db := simdb.New()
 		db.Classify = simdb.RootmultiClassifier
+		// (under the replica's map seed: the order in which the stores are mounted - a Go map in the application's
+		// constructor - decides the order in which Commit saves them, i.e. what a crash at write k leaves behind)
+		core.SetMapSeed(core.SplitMix64(rc.MapSeed ^ 0x6e6577617070))
 		app, aerr := NewApp(db, rc.Pruning, e.simNode)
+		core.ClearMapSeed()
 		if aerr != nil {
 			return nil, fmt.Errorf("cannot build app: %v", aerr)
 		}
@@ -1170,6 +1174,9 @@ func (e *Exec) commit(bi int, rec *blockRecord, h int64) {
 		r.db.CrashBefore(-1)
 		if p != nil {
 			if c, ok := p.(simdb.Crash); ok {
+				if os.Getenv("VERIF_DEBUG_ENUM") != "" {
+					fmt.Fprintf(os.Stderr, "ENUM crash h%d r%d calls=%d before %q after log %v\n", h, r.idx, r.calls, c.Label, r.db.Log())
+				}
 				attrs := map[string]string{"crash_before": labelClass(c.Label), "crash_after": lastLabelClass(r.db.Log())}
 				if c.IOError {
 					e.res.Stats.Fault("io_error_in_commit:" + labelClass(c.Label))
